@@ -182,14 +182,19 @@ def check(run: common.Run):
     budget = 55 if run.tier == "quick" else 1500
     deadline = time.time() + budget
     jobs, meta = [], {}
-    step = {"quick": {"constants": 1, "functions": 3, "repo": 5, "constructs": 1}, "thorough": {}}[run.tier]
+    step = {"quick": {"constants": 2, "functions": 3, "repo": 6, "constructs": 1, "blank_runs": 3}, "thorough": {}}[run.tier]
     extra = [w for ws in list(WITNESS.values()) + list(FIXED_WITNESS.values()) for w in ws]
     fam["witnesses"] = extra
-    for name in ("witnesses", "invalid", "indented", "tabs", "eof", "constructs", "constants", "functions", "repo"):
+    for name in ("witnesses", "imports", "resources", "invalid", "indented", "tabs", "eof", "constructs", "constants",
+                 "functions", "repo", "blank_runs"):
         srcs = fam[name][::step.get(name, 1)]
         for i, s in enumerate(srcs):
             if run.tier == "thorough" or name in ("witnesses", "invalid", "indented", "tabs", "eof"):
                 combos = sw.OPTION_COMBOS
+            elif name == "imports":        # keep_imports decides whether the import tracers run
+                combos = [sw.OPTION_COMBOS[j] for j in (0, 2, 5, 7)]
+            elif name == "resources":
+                combos = [sw.OPTION_COMBOS[j] for j in (0, 5)]
             elif name == "constructs":
                 combos = [sw.OPTION_COMBOS[j] for j in (i % 8, (i + 3) % 8, (i + 5) % 8, (i + 6) % 8)]
             else:
